@@ -27,8 +27,17 @@ for d in sorted(os.listdir(f"{V}/seeded")):
     nf = sum("no-failing-input-found" in l for l in viol)
     rows.append((d, chk, f"detected ({len(viol)} violation lines, {nf} without failing input)" if viol else "MISSED", time.time() - t0))
     print(rows[-1], flush=True)
+# a partial run (names given) updates the rows of the file it has run again
+prev = {}
+if sel and os.path.exists(f"{V}/seeded/REGRESSION.txt"):
+    for l in open(f"{V}/seeded/REGRESSION.txt").read().splitlines()[1:]:
+        parts = [x.strip() for x in l.split("|")]
+        if len(parts) == 4:
+            prev[parts[0]] = l
 with open(f"{V}/seeded/REGRESSION.txt", "w") as f:
     f.write("seeded change | check run | outcome | seconds\n")
     for r in rows:
-        f.write(f"{r[0]} | ./check {r[1]} --tier quick | {r[2]} | {r[3]:.0f}\n")
+        prev[r[0]] = f"{r[0]} | ./check {r[1]} --tier quick | {r[2]} | {r[3]:.0f}"
+    for k in sorted(prev):
+        f.write(prev[k] + "\n")
 print("missed:", [r[0] for r in rows if r[2] == "MISSED"])
